@@ -65,6 +65,7 @@ def classify_unit_str(m, u, parsed_to=None):
 
 
 
+CANDIDATES = ("hh", "cd", "TR", "Pa", "ha", "min.", "nmi.", "kn", "pt", "ch", "ft", "Mm")
 STAGES = [["si"], ["us", "iec"], ["energy", "avoirdupois", "troy"], ["astronomical", "natural", "metric"],
           ["iso", "eu", "fff", "apocrypha", "computing", "acoustics", "electronics", "music", "geometry", "physics"]]
 
@@ -86,12 +87,46 @@ def run(ctx):
         stages = [["si"]] + [st for st in stages if st != ["si"]]
     env = kit.Env(ctx, modules=stages[0])
     imported = list(stages[0])
+    def newly_declared_symbols_read_back(before):
+        """right after an import - before anything else is parsed - every symbol the new modules declared reads back
+        as its unit, even though the last thing the parser did was to fail on a text containing those very spellings"""
+        fresh = [s_ for s_ in env.b.measured.Unit._by_symbol if s_ not in before and SYMBOL_RE.match(s_)]
+        ctx.rng.shuffle(fresh)
+        first = [c for c in CANDIDATES if c in fresh]   # spellings the parser resolved (as prefix + symbol) just before the import
+        for s_ in first + [x for x in fresh if x not in first][:10]:
+            owner = env.b.measured.Unit._by_symbol[s_]
+            if s_ not in first:
+                try:
+                    env.b.measured.Unit.parse(f"{s_}/zzqqnotaunit")    # resolves s_, then fails on the unknown symbol
+                except Exception:
+                    pass
+            ctx.count("evaluations")
+            ctx.count("symbols_parsed_right_after_their_declaration")
+            try:
+                got = env.b.measured.Unit.parse(s_)
+            except Exception as e:
+                got = e
+            if got is not owner and str(owner) == s_:
+                ctx.violation("C13:parses-to-a-different-unit", f"str({owner.names[0] if owner.names else owner!r}) = {s_!r} parsed right after its module was imported gives {got!r}", {"str": s_})
+
     for k, mods in enumerate(stages):
         if k:
+            # the parser's last words before the import: a text that resolves every spelling it can and then fails
+            before = set(env.b.measured.Unit._by_symbol)
+            for cand in CANDIDATES:
+                try:
+                    env.b.measured.Unit.parse(f"{cand}*zzqqnotaunit")
+                except Exception:
+                    pass
+            try:
+                env.b.measured.Unit.parse("hh*cd*TR*Pa*ha/zzqqnotaunit")
+            except Exception:
+                pass
             for name in mods:
                 importlib.import_module(f"measured.{name}")
                 env.b.modules.append(name)
             imported += mods
+            newly_declared_symbols_read_back(before)
             env.orc = oracle.Oracle(env.b.measured, env.b.decls, env.b.scales)
             env.pools = gen.Pools(env.b, env.mdl, env.orc)
         ctx.count("staged_import_stages")
